@@ -19,7 +19,7 @@ section
 variable (env : Env) (fl : Flags) (pc code : Bytes) (fExec : Bool) (st : St)
 
 theorem arm_smallint (sop : Nat) (hs : sop = 0x4f ∨ (0x51 ≤ sop ∧ sop ≤ 0x60)) :
-    Sim code st.pbegin (opSmallInt sop st) (Ref.execOp env fl sop pc fExec (toRef st code)) := by
+    Sim code st (opSmallInt sop st) (Ref.execOp env fl sop pc fExec (toRef st code)) := by
   have hcases : sop = 0x4f ∨ sop = 0x51 ∨ sop = 0x52 ∨ sop = 0x53 ∨ sop = 0x54 ∨ sop = 0x55 ∨ sop = 0x56 ∨
       sop = 0x57 ∨ sop = 0x58 ∨ sop = 0x59 ∨ sop = 0x5a ∨ sop = 0x5b ∨ sop = 0x5c ∨ sop = 0x5d ∨ sop = 0x5e ∨
       sop = 0x5f ∨ sop = 0x60 := by omega
@@ -27,10 +27,10 @@ theorem arm_smallint (sop : Nat) (hs : sop = 0x4f ∨ (0x51 ≤ sop ∧ sop ≤ 
     rfl | rfl <;>
     simp [opSmallInt, bn2vch_eq, Ref.execOp, toRef, Sim, bind, Except.bind]
 
-theorem arm_depth : Sim code st.pbegin (opDepth st) (Ref.execOp env fl 0x74 pc fExec (toRef st code)) := by
+theorem arm_depth : Sim code st (opDepth st) (Ref.execOp env fl 0x74 pc fExec (toRef st code)) := by
   simp [opDepth, bn2vch_eq, Ref.execOp, toRef, Sim, bind, Except.bind]
 
-theorem arm_size : Sim code st.pbegin (opSize 0x82 st) (Ref.execOp env fl 0x82 pc fExec (toRef st code)) := by
+theorem arm_size : Sim code st (opSize 0x82 st) (Ref.execOp env fl 0x82 pc fExec (toRef st code)) := by
   obtain ⟨s, al, vf, pb, n⟩ := st
   rcases s with _ | ⟨a, rest⟩ <;> simp only [opSize] <;>
     simp [bn2vch_eq, Ref.execOp, toRef, checkArgs, pyIdx, bind, Except.bind, Sim]
@@ -41,7 +41,7 @@ theorem unaryVal_eq (sop : Nat) (hm : sop ∈ unaryNumOps) (bn : Int) :
   rcases hm with rfl | rfl | rfl | rfl | rfl | rfl <;> exact ⟨_, rfl, rfl⟩
 
 theorem arm_unary (sop : Nat) (hm : sop ∈ unaryNumOps) :
-    Sim code st.pbegin (unaryOp sop st) (Ref.execOp env fl sop pc fExec (toRef st code)) := by
+    Sim code st (unaryOp sop st) (Ref.execOp env fl sop pc fExec (toRef st code)) := by
   obtain ⟨s, al, vf, pb, n⟩ := st
   have hm' := hm
   simp only [unaryNumOps, List.mem_cons, List.mem_nil_iff, or_false] at hm'
@@ -93,7 +93,7 @@ theorem ref_execOp_binary (sop : Nat) (hm : sop ∈ binaryNumOps) (rs : Ref.Stat
   rcases hm with rfl | rfl | rfl | rfl | rfl | rfl | rfl | rfl | rfl | rfl | rfl | rfl | rfl <;> rfl
 
 theorem arm_binary (sop : Nat) (hm : sop ∈ binaryNumOps) :
-    Sim code st.pbegin (binOp sop st) (Ref.execOp env fl sop pc fExec (toRef st code)) := by
+    Sim code st (binOp sop st) (Ref.execOp env fl sop pc fExec (toRef st code)) := by
   rw [ref_execOp_binary env fl pc fExec sop hm]
   obtain ⟨s, al, vf, pb, n⟩ := st
   rcases s with _ | ⟨a, _ | ⟨b, rest⟩⟩
@@ -126,7 +126,7 @@ theorem arm_binary (sop : Nat) (hm : sop ∈ binaryNumOps) :
         · obtain ⟨r, hr1, hr2⟩ := binaryVal_eq sop hm h9d bn1 bn2
           simp [binOp, hca, hcb, hsa, hsb, hr1, hr2, h9d, bn2vch_eq, toRef, pyIdx, bind, Except.bind, Sim]
 
-theorem arm_within : Sim code st.pbegin (opWithin 0xa5 st) (Ref.execOp env fl 0xa5 pc fExec (toRef st code)) := by
+theorem arm_within : Sim code st (opWithin 0xa5 st) (Ref.execOp env fl 0xa5 pc fExec (toRef st code)) := by
   obtain ⟨s, al, vf, pb, n⟩ := st
   rcases s with _ | ⟨a, _ | ⟨b, _ | ⟨d, rest⟩⟩⟩
   · simp only [opWithin]; arm_eq
@@ -143,7 +143,7 @@ theorem arm_within : Sim code st.pbegin (opWithin 0xa5 st) (Ref.execOp env fl 0x
         Ref.vchFalse]
 
 theorem arm_pickroll (sop : Nat) (hs : sop = 0x79 ∨ sop = 0x7a) :
-    Sim code st.pbegin (opPickRoll sop st) (Ref.execOp env fl sop pc fExec (toRef st code)) := by
+    Sim code st (opPickRoll sop st) (Ref.execOp env fl sop pc fExec (toRef st code)) := by
   obtain ⟨s, al, vf, pb, n⟩ := st
   rcases s with _ | ⟨a, _ | ⟨b, rest⟩⟩
   · rcases hs with rfl | rfl <;> simp only [opPickRoll] <;> arm_eq
